@@ -378,6 +378,11 @@ func visitInstr(fr *frame, instr ssa.Instruction) continuation {
 		fr.env[instr] = fr.get(instr.Iter).(iter).next()
 
 	case *ssa.FieldAddr:
+		if sp, ok := fr.get(instr.X).(symptr); ok && sp.elt != nil {
+			ft := sp.elt.Underlying().(*types.Struct).Field(instr.Field).Type()
+			fr.env[instr] = symptr{arr: sp.arr, idx: sp.idx, elt: ft, path: append(append([]int(nil), sp.path...), instr.Field)}
+			break
+		}
 		p, ok := fr.get(instr.X).(*value)
 		if !ok {
 			panic(engineError{fmt.Sprintf("FieldAddr on %T", fr.get(instr.X))})
